@@ -119,7 +119,7 @@ func main() {
 		r.Finish()
 	}
 	if r.Fork(16) {
-		r.Set("rule", "all strings up to the length bound over the 24-symbol alphabet "+string(sigma)+" (every metacharacter plus representatives), canonical prints of the C02 pattern trees, all single-character insertions/deletions/replacements of the prints of trees with <= 2 (quick) / 3 (thorough) operator nodes, and meaningless ranges; non-trivial = accepted by at least one entry point (or a meaningless-range case); distinct by text")
+		r.Set("rule", "all strings up to the length bound over the 24-symbol alphabet "+string(sigma)+" (every metacharacter plus representatives), canonical prints of the C02 pattern trees, all single-character insertions/deletions/replacements of the prints of trees with <= 2 (quick) / 3 (thorough) operator nodes, meaningless ranges, and every character (all of ASCII plus 5 others) in 30 item contexts (escape, bracket item, range end, repetition count, class name, hex digit); non-trivial = accepted by at least one entry point (or a meaningless-range case); distinct by text")
 		r.Set("evaluations", r.Get("strings"))
 		r.Finish()
 	}
@@ -236,6 +236,19 @@ func main() {
 			}
 		}
 		checkString(r, "", "empty", false)
+		// (5) every character in every item context: escapes, bracket items, range ends, repetition counts, class names
+		var chars []rune
+		for c := rune(0); c <= 0x7F; c++ {
+			chars = append(chars, c)
+		}
+		chars = append(chars, 0x80, 0xE9, 0xFF, 0x4E2D, 0x1F600)
+		contexts := []string{"%c", "\\%c", "a\\%c", "\\%cb", "\\%c+", "(\\%c)", "[\\%c]", "[^\\%c]", "[a\\%c]", "[a-\\%c]", "[\\%c-z]", "[%c]", "[^%c]", "[%c-z]", "[!-%c]",
+			"a{%c}", "a{1,%c}", "a{%c,}", "\\p{%c}", "\\P%c", "\\x4%c", "\\x00%c1", "[:%c:]", "[[:%c:]]", "a%c", "a%cb", "(%c)", "a|%c", "\\%c\\%c", "\\\\%c"}
+		for _, c := range chars {
+			for _, ctx := range contexts {
+				checkString(r, strings.ReplaceAll(ctx, "%c", string(c)), "every_character_in_context", false)
+			}
+		}
 	}
 	r.Assume("membership in the documented grammar is decided as a context-free grammar (any derivation); `char` is read as any character, the most permissive reading")
 	r.Assume("a panic is counted here but judged by C14")
